@@ -18,7 +18,30 @@ type gen struct {
 	httpDn  map[int]bool // nodes whose HTTP endpoint is currently unreachable
 	kinds   string
 	queue   []func(in *inst) event // pending events of a scenario script
+	lnodes  map[int]bool           // registered learner nodes (number >= 100) -> has this driver's role
 }
+
+func (g *gen) learnerField() string {
+	var ks []int
+	for k := range g.lnodes {
+		ks = append(ks, k)
+	}
+	sort.Ints(ks)
+	var p []string
+	for _, k := range ks {
+		if g.lnodes[k] {
+			p = append(p, fmt.Sprint(k))
+		} else {
+			p = append(p, fmt.Sprintf("%d!", k))
+		}
+	}
+	if len(p) == 0 {
+		return "-"
+	}
+	return strings.Join(p, ",")
+}
+
+func (g *gen) nEvent(data []int) event { return event{"N", []string{joinInts(data), g.learnerField()}} }
 
 func (g *gen) initEvent() event {
 	r := g.r
@@ -58,11 +81,22 @@ func (g *gen) initEvent() event {
 		ids[i] = next
 	}
 	r.Shuffle(c, func(i, j int) { ids[i], ids[j] = ids[j], ids[i] })
-	maxid := next + r.Pick(3)
 	var idp []string
 	for i, n := range nodes {
 		idp = append(idp, fmt.Sprintf("%d:%d", n, ids[i]))
 	}
+	// sometimes the layout already has learners (their ids come from the same counter)
+	g.lnodes = map[int]bool{}
+	var lrn []int
+	if strings.Contains(g.kinds, "L") && r.Chance(0.2) {
+		for k := 101; k < 101+1+r.Pick(2); k++ {
+			next += 1 + r.Pick(2)
+			lrn = append(lrn, k)
+			idp = append(idp, fmt.Sprintf("%d:%d", k, next))
+			g.lnodes[k] = true
+		}
+	}
+	maxid := next + r.Pick(3)
 	rm := "-"
 	if r.Chance(0.25) && c-1 > g.replica/2 {
 		i := r.Pick(c)
@@ -78,7 +112,7 @@ func (g *gen) initEvent() event {
 		ver = "v1"
 	}
 	g.httpDn = map[int]bool{}
-	return event{"I", []string{fmt.Sprint(g.replica), joinInts(nodes), strings.Join(idp, ","), rm, fmt.Sprint(maxid), auto, ver}}
+	return event{"I", []string{fmt.Sprint(g.replica), joinInts(nodes), strings.Join(idp, ","), rm, fmt.Sprint(maxid), auto, ver, joinInts(lrn)}}
 }
 
 func (g *gen) allNodes() []int {
@@ -203,7 +237,45 @@ func (g *gen) nodesEvent(in *inst) event {
 		l = append(l, k)
 	}
 	sort.Ints(l)
-	return event{"N", []string{joinInts(l)}}
+	return g.nEvent(l)
+}
+
+// a learner node joins or leaves. At most one node of this driver's role may be waiting to be added: with two,
+// the ids they get follow Go's map iteration order in doCheckNamespacesForLearner.
+func (g *gen) learnerNodesEvent(in *inst) event {
+	r := g.r
+	in.reg.mu.Lock()
+	reg := map[int]bool{}
+	for _, n := range in.reg.info.LearnerNodes[learnerRole] {
+		reg[kOf(n)] = true
+	}
+	in.reg.mu.Unlock()
+	pending := false
+	for k, same := range g.lnodes {
+		if same && !reg[k] {
+			pending = true
+		}
+	}
+	var present []int
+	for k := range g.lnodes {
+		present = append(present, k)
+	}
+	sort.Ints(present)
+	switch {
+	case len(present) > 0 && r.Chance(0.35):
+		delete(g.lnodes, present[r.Pick(len(present))])
+	case r.Chance(0.2):
+		g.lnodes[109] = false // a learner of another role
+	case !pending:
+		g.lnodes[101+r.Pick(4)] = true
+	}
+	st := in.coord.VerifState()
+	var l []int
+	for _, n := range st.DataNodes {
+		l = append(l, kOf(n))
+	}
+	sort.Ints(l)
+	return g.nEvent(l)
 }
 
 type wk struct {
@@ -212,7 +284,8 @@ type wk struct {
 }
 
 var weights = []wk{{"C", 30}, {"T", 14}, {"Ac", 14}, {"Ap", 8}, {"N", 10}, {"M", 3}, {"D", 3}, {"R", 3}, {"F", 3},
-	{"X", 2}, {"O", 1}, {"B", 6}, {"K", 2}, {"P", 5}}
+	{"X", 2}, {"O", 1}, {"B", 6}, {"K", 2}, {"P", 5},
+	{"LC", 7}, {"LS", 2}, {"Ln", 4}, {"LA", 2}, {"LL", 1}, {"LR", 2}, {"LX", 1}}
 
 // scenario scripts: event orders that walk the coordinator through a whole migration / balance /
 // decommission; every step still comes from the PRNG and may be interleaved with random events
@@ -231,7 +304,7 @@ func (g *gen) script(in *inst) {
 		for k := range g.httpDn {
 			g.httpDn[k] = false
 		}
-		return event{"N", []string{joinInts(g.allNodes())}}
+		return g.nEvent(g.allNodes())
 	}
 	loseReplica := func(in *inst) event {
 		in.reg.mu.Lock()
@@ -254,9 +327,47 @@ func (g *gen) script(in *inst) {
 			l = append(l, k)
 		}
 		sort.Ints(l)
-		return event{"N", []string{joinInts(l)}}
+		return g.nEvent(l)
 	}
-	switch r.Pick(3) {
+	nscripts := 3
+	if g.has("L") {
+		nscripts = 4
+	}
+	switch r.Pick(nscripts) {
+	case 3: // the learner driver: start, learners join one by one, the first leaves (new learner leader), stop
+		lc := func(in *inst) event { return g.next1(in, "LC") }
+		ln := func(join bool) func(in *inst) event {
+			return func(in *inst) event {
+				if join {
+					for k := 101; k <= 104; k++ {
+						if _, ok := g.lnodes[k]; !ok {
+							g.lnodes[k] = true
+							break
+						}
+					}
+				} else {
+					in.reg.mu.Lock()
+					ls := in.reg.info.LearnerNodes[learnerRole]
+					if len(ls) > 0 {
+						delete(g.lnodes, kOf(ls[0]))
+					}
+					in.reg.mu.Unlock()
+				}
+				var l []int
+				for _, n := range in.coord.VerifState().DataNodes {
+					l = append(l, kOf(n))
+				}
+				sort.Ints(l)
+				return g.nEvent(l)
+			}
+		}
+		ls := func(b string) func(in *inst) event {
+			return func(in *inst) event { return event{"LS", []string{b}} }
+		}
+		g.queue = []func(in *inst) event{ls("1"), ln(true), lc, ln(true), lc, lc, ln(false), lc, ln(true), lc}
+		if r.Chance(0.4) {
+			g.queue = append(g.queue, ls("0"), lc)
+		}
 	case 0: // a replica's node fails; migrate, finish the removal, replace
 		g.queue = []func(in *inst) event{conv(true), loseReplica, check, tick(18), conv(true), check, conv(false), tick(6), check,
 			tick(18), check, conv(false), check, tick(18), check}
@@ -318,6 +429,22 @@ func (g *gen) next(in *inst) event {
 		}
 		x -= w.w
 	}
+	return g.next1(in, kind)
+}
+
+// an existing learner of the stored layout (70%) or any learner number
+func (g *gen) pickLearner(in *inst) int {
+	in.reg.mu.Lock()
+	ls := append([]string{}, in.reg.info.LearnerNodes[learnerRole]...)
+	in.reg.mu.Unlock()
+	if len(ls) > 0 && g.r.Chance(0.7) {
+		return kOf(ls[g.r.Pick(len(ls))])
+	}
+	return 101 + g.r.Pick(4)
+}
+
+func (g *gen) next1(in *inst, kind string) event {
+	r := g.r
 	switch kind {
 	case "C":
 		if r.Chance(0.7) {
@@ -354,6 +481,50 @@ func (g *gen) next(in *inst) event {
 		return event{"X", []string{fmt.Sprint(1 + r.Pick(2))}}
 	case "O":
 		return event{"O", []string{fmt.Sprint(r.Pick(2))}}
+	case "LC":
+		// never let doCheckNamespacesForLearner see two nodes waiting to be added (Go map order decides their ids)
+		in.reg.mu.Lock()
+		reg := map[int]bool{}
+		for _, n := range in.reg.info.LearnerNodes[learnerRole] {
+			reg[kOf(n)] = true
+		}
+		in.reg.mu.Unlock()
+		var pend []int
+		for k, same := range g.lnodes {
+			if same && !reg[k] {
+				pend = append(pend, k)
+			}
+		}
+		sort.Ints(pend)
+		if len(pend) > 1 {
+			for _, k := range pend[1:] {
+				delete(g.lnodes, k)
+			}
+			st := in.coord.VerifState()
+			var l []int
+			for _, n := range st.DataNodes {
+				l = append(l, kOf(n))
+			}
+			sort.Ints(l)
+			return g.nEvent(l)
+		}
+		return event{"LC", []string{"-"}}
+	case "LX":
+		return event{kind, []string{"-"}}
+	case "LS":
+		b := "1"
+		if r.Chance(0.25) {
+			b = "0"
+		}
+		return event{"LS", []string{b}}
+	case "Ln":
+		return g.learnerNodesEvent(in)
+	case "LA":
+		return event{kind, []string{fmt.Sprint(101 + r.Pick(4))}}
+	case "LL":
+		return event{kind, []string{fmt.Sprint(g.pickLearner(in))}}
+	case "LR":
+		return event{"LR", []string{fmt.Sprint(g.pickLearner(in)), fmt.Sprint(r.Pick(2))}}
 	case "B":
 		return event{"B", []string{""}}
 	case "P":
